@@ -8,9 +8,9 @@ ID = "C13"
 HALF = Fraction(1, 200)
 BOUNDS = {
     "quick": "evo_aspirate / evo_dispense from an arbitrary valid state of a plate 4x2 or a trough with 4 virtual rows x 2 columns: n<=2 wells (n=3 on the plate with per-tip volumes and tips 1,2,3) chosen from "
-             "{A01,B01,C01,A02} in any order with repeats, n tips each an unbounded symbolic int, volumes scalar or per tip (symbolic), grid / site / arm "
+             "{A01,B01,C01,A02} in any order with repeats, n tips each an unbounded symbolic int (for n=2 also Tip.T3 / Tip.T4 mixed with ints), volumes scalar or per tip (symbolic), grid / site / arm "
              "unbounded symbolic ints; the liquid class as an abstract string (length 0..40, may contain ';'); evo_wash with all thirteen parameters symbolic (ints unbounded, volumes real) and tips of length 1..2; scalar-volume commands are preceded by an earlier command for the same geometry in the same process (rejected for an unknown well after a valid one, rejected for two columns, or accepted)",
-    "thorough": "n<=3 wells / tips, Tip members mixed with ints, plate 8x2",
+    "thorough": "n<=3 wells / tips",
 }
 OUTSIDE = "more wells/tips per command, other geometries, labware with more than 2 columns"
 ASSUMPTIONS = ["oracle: oracles/evoscript.py (command grammar, well-selection decoding, EVOware pairing rule: selected tips ascending serve selected wells in ascending row order)"]
@@ -26,6 +26,8 @@ def shards(tier):
                     out.append(dict(part="cmd", cmd=cmd, kind=kind, n=n, volmode=volmode))
         if tier == "quick":
             out.append(dict(part="cmd", cmd=cmd, kind="plate", n=3, volmode="list", tips_fixed=True))
+    for cmd in ("evo_aspirate", "evo_dispense"):
+        out.append(dict(part="cmd", cmd=cmd, kind="plate", n=2, volmode="list", tipmix=True))
     for n in (1, 2):
         out.append(dict(part="wash", n=n))
     out.append(dict(part="pos", cmd="evo_aspirate"))
@@ -71,7 +73,17 @@ def scenario(ctx, p):
         return wl
     n = p["n"]
     wells = [ctx.choose(f"w{i}", ["A01", "B01", "C01", "A02"]) for i in range(n)]
-    tips = list(range(1, n + 1)) if p.get("tips_fixed") else [ctx.int(f"t{i}") for i in range(n)]
+    if p.get("tips_fixed"):
+        tips = list(range(1, n + 1))
+    elif p.get("tipmix"):
+        # plain ints and Tip members (IntEnum bit values 1, 2, 4, ... 128) mixed in one list
+        from robotools.evotools.types import Tip
+        tips = []
+        for i in range(n):
+            tk = ctx.choose(f"tk{i}", ["sym", "T3", "T4"])
+            tips.append(ctx.int(f"t{i}") if tk == "sym" else getattr(Tip, tk))
+    else:
+        tips = [ctx.int(f"t{i}") for i in range(n)]
     if p["volmode"] == "scalar":
         x = ctx.real("x0", 0, common.BIG)
         vols, per = x, [x] * n
